@@ -211,6 +211,7 @@ inductive Val where
   | bytes (b : List UInt8)
   | dt (micros : Int)          -- an aware datetime, as microseconds since the epoch
   | tuple                      -- `digest._pack()`: a 3-tuple, which no Avro branch accepts
+  | junk                       -- not a value: a union index left in the block by a write that failed after emitting it
   deriving DecidableEq, Repr
 
 def isSurrogate (c : Nat) : Bool := 0xD800 ≤ c && c ≤ 0xDFFF
@@ -250,6 +251,11 @@ structure AvroLaws where
   string_utf8 : ∀ s, accepts (.prim "string") (.str s) = !s.any isSurrogate
   bytes_ok : ∀ b, accepts (.prim "bytes") (.bytes b) = true
   tuple_never : ∀ t, accepts t .tuple = false
+  junk_never : ∀ t, accepts t .junk = false
+  /-- the value selects a union branch (so the branch index is emitted) but its encoding then raises -/
+  leavesIndex : AType → Val → Bool
+  leaves_string : ∀ s, leavesIndex (.prim "string") (.str s) = s.any isSurrogate
+  leaves_refused : ∀ t v, leavesIndex t v = true → accepts t v = false
   stored_ok : ∀ (F : FloatLaws) t v, accepts t v = true → accepts t (stored F v) = true
 
 /-- the concrete instance the driver runs: `admissible` -/
@@ -267,6 +273,20 @@ def fastavro : AvroLaws where
     intro t
     unfold admissible
     split <;> simp_all
+  junk_never := by
+    intro t
+    unfold admissible
+    split <;> simp_all
+  leavesIndex := fun t v =>
+    match t, v with
+    | .prim "string", .str s => s.any isSurrogate
+    | _, _ => false
+  leaves_string := by intro s; rfl
+  leaves_refused := by
+    intro t v h
+    split at h
+    · simp [admissible, h]
+    · cases h
   stored_ok := by
     intro F t v h
     cases v <;> simp_all [stored]
@@ -291,12 +311,14 @@ structure WState where
 
 def WState.init : WState := ⟨none, none, [], 0⟩
 
-/-- append the record's tokens up to the first refused one -/
+/-- append the record's tokens up to the first refused one (plus the dangling union index if the refusal came after
+    the branch was chosen) -/
 def emitRow (L : AvroLaws) (F : FloatLaws) : List (String × AType) → List Val → Nat → List Val × Option Nat
   | (_, t) :: cols, v :: vs, i =>
     if L.accepts t v then
       let r := emitRow L F cols vs (i + 1)
       (stored F v :: r.1, r.2)
+    else if L.leavesIndex t v then ([.junk], some i)
     else ([], some i)
   | [], [], _ => ([], none)
   | _, _, i => ([], some i)           -- a record whose value list does not fit its descriptor is refused
